@@ -15,6 +15,7 @@ LOOP_REVIEWED = {
 
 def run(check, ctx):
     repo = ctx.repo
+    foreign_handles(check, repo)
     # ---- raw pointers taken with .get() must not be held across a re-binding of the owner -------------
     nget = 0
     for mname, mod in sorted(repo.modules.items()):
@@ -79,3 +80,58 @@ def run(check, ctx):
     check.count("c_for_loops_scanned", nloops)
     if nloops < 300:
         raise AnalysisError("only %d for-loops scanned in src/" % nloops)
+
+
+def foreign_handles(check, repo):
+    """A native routine that takes two object handles interprets both with its own structure layout.  Where a method
+    passes the handle of another object (a parameter) next to its own, the two objects must be known to be of the same
+    native kind: a dominating test that relates self._curve and <other>._curve (or an isinstance test plus such a test).
+    Without it `Ed25519 point == P-256 point` reads outside the smaller structure."""
+    n = 0
+    for mname in ("Crypto.PublicKey._point",):
+        mod = repo.module(mname)
+        for q, f in sorted(mod.funcs.items()):
+            params = [a.arg for a in f.args.args[1:]]
+            if not params:
+                continue
+            # names that hold the handle of a parameter:  p2 = point._point.get()
+            handle_of = {}
+            for st in walk_no_nested(f):
+                if isinstance(st, ast.Assign) and len(st.targets) == 1 and isinstance(st.targets[0], ast.Name):
+                    v = st.value
+                    if isinstance(v, ast.Call) and isinstance(v.func, ast.Attribute) and v.func.attr == "get" and \
+                            isinstance(v.func.value, ast.Attribute) and isinstance(v.func.value.value, ast.Name):
+                        handle_of[st.targets[0].id] = v.func.value.value.id
+            for c in walk_no_nested(f):
+                if not isinstance(c, ast.Call):
+                    continue
+                owners = set()
+                for a in c.args:
+                    if isinstance(a, ast.Call) and isinstance(a.func, ast.Attribute) and a.func.attr == "get" and \
+                            isinstance(a.func.value, ast.Attribute) and isinstance(a.func.value.value, ast.Name) and \
+                            a.func.value.attr == "_point":
+                        owners.add(a.func.value.value.id)
+                    elif isinstance(a, ast.Name) and a.id in handle_of:
+                        owners.add(handle_of[a.id])
+                foreign = sorted(o for o in owners if o in params)
+                if "self" not in owners or not foreign:
+                    continue
+                n += 1
+                other = foreign[0]
+                guarded = False
+                for t in walk_no_nested(f):
+                    if isinstance(t, ast.If) and t.lineno < c.lineno:
+                        names = set()
+                        for x in ast.walk(t.test):
+                            if isinstance(x, ast.Attribute) and x.attr == "_curve" and isinstance(x.value, ast.Name):
+                                names.add(x.value.id)
+                        leaves = any(isinstance(y, (ast.Return, ast.Raise)) for b in t.body for y in ast.walk(b))
+                        if "self" in names and other in names and leaves:
+                            guarded = True
+                check.ob("F", "F|foreign-handle|%s" % q, guarded, mod.path, c.lineno,
+                         extracted="%s passes its own native handle and the one of `%s` to a native routine %s" % (
+                             q, other, "after checking that both belong to the same curve" if guarded else
+                             "WITHOUT relating self._curve to %s._curve (the routine would read a structure of another layout)" % other),
+                         expected="two handles given to one native routine come from objects of the same curve")
+    if n < 3:
+        raise AnalysisError("only %d two-handle native calls found in _point.py (confirmed: 3)" % n)
